@@ -70,10 +70,21 @@ DESC = {
 "C15e": "urllib fallback of resolve_remote returns from inside the with-block (fetched document never cached)", "C16e": "check_schema picks its meta-validator class through the $schema registry (a versioned child takes over its parent's check_schema)",
 "C17e": "ErrorTree.__getitem__ indexes the recorded instance before consulting its known children", "C18e": "RefResolver.handlers becomes a class attribute updated in place (handlers leak between resolvers)",
 "C19e": "--base-uri resolver built with from_schema + push_scope (local refs resolve against the base URI document)", "C20e": "CLI checks the schema with the $schema-declared class even when -V is given",
+"C01f": "draft-3 dependencies returns (instead of continues) at the first key missing from the instance", "C02f": "iter_errors tests `if ref:` (an empty-string $ref no longer hides its siblings)",
+"C03f": "ref() resolves and pushes inside the try whose finally pops (scope stack under-flows after RefResolutionError; IndexError on the next call)", "C04f": "validate() collects all errors before raising the first (a later non-validation exception wins)",
+"C05f": "draft-3 dependencies returns after the first schema-form dependency (later entries dropped)", "C06f": "iter_errors fills validator/instance/schema only while schema_path is empty (false-schema errors get the enclosing level's details)",
+"C07f": "RefResolver.resolve memoised on the reference text alone (ignores the resolution scope)", "C08f": "enum() caches normalised members in a module-level dict keyed by id(list)",
+"C09f": "is_number rejects values beyond the float range (huge ints skip every numeric keyword)", "C10f": "`if` added to the Draft6 keyword table",
+"C11f": "uniq() compares canonical json.dumps before the brute-force path (1 vs 1.0 inside objects not duplicates)", "C12f": "is_valid implemented as try validate() except ValidationError (an unlisted ValidationError from a format function is swallowed)",
+"C13f": "FormatChecker.check %-formats the message a second time with the cause (instances containing % raise ValueError/TypeError)", "C14f": "resolve_fragment skips ~0/~1 unescaping unless the still percent-encoded fragment contains '~'",
+"C15f": "resolve_remote dispatches with try handlers[scheme](uri) except KeyError (a KeyError inside a handler falls through to urlopen)", "C16f": "TypeChecker lookup memo shared with checkers derived by purely additive redefine",
+"C17f": "ErrorTree records a node's instance only while unset (first error wins instead of last)", "C18f": "module-level lru_cache of pointer tokens, unescaped in place on the shared list",
+"C19f": "_Outputter.validation_error skips a message identical to the previous one", "C20f": "validator_for falls back to `default` instead of the latest draft for an unknown $schema",
 }
 MISSED = set("C03 C07 C12 C15 C16 C20 C02b C06b C07b C10b C11b C14b C19b C01c C02c C06c C10c C12c C15c C16c C18c C19c C20c "
              "C02d C04d C05d C07d C09d C13d C15d C16d C18d C19d C20d "
-             "C01e C02e C04e C05e C07e C10e C11e C12e C14e C15e C16e C19e C20e".split())
+             "C01e C02e C04e C05e C07e C10e C11e C12e C14e C15e C16e C19e C20e "
+             "C02f C03f C04f C07f C11f C12f C17f C18f".split())
 rows = []
 for name in sorted(os.listdir(os.path.join(HERE, "seeded"))):
     mp = os.path.join(HERE, "seeded", name, "meta.json")
